@@ -29,6 +29,7 @@ func seqElemType(args []cty.Value) (cty.Type, error) {
 	// be decided yet (only when some argument or element is an unknown of unknown type). Known nulls of
 	// unknown type do not constrain the element type, so known arguments always get a definite type.
 	var etys []cty.Type
+	elems := 0
 	for _, a := range args {
 		ty := a.Type()
 		if !(ty.IsListType() || ty.IsSetType() || ty.IsTupleType()) {
@@ -50,6 +51,7 @@ func seqElemType(args []cty.Value) (cty.Type, error) {
 		// nulls and unknowns of unknown type)
 		for it := a.ElementIterator(); it.Next(); {
 			_, ev := it.Element()
+			elems++
 			if ev.Type() == cty.DynamicPseudoType && ev.IsKnown() {
 				continue // null of unknown type
 			}
@@ -61,8 +63,11 @@ func seqElemType(args []cty.Value) (cty.Type, error) {
 			return cty.DynamicPseudoType, nil
 		}
 	}
+	if len(etys) == 0 && elems > 0 {
+		return cty.String, nil // only nulls of unknown type: a conventional element type
+	}
 	if len(etys) == 0 {
-		return cty.String, nil // conventional element type when nothing constrains it
+		return cty.NilType, nil // nothing constrains the element type (only empty tuples / nulls of unknown type)
 	}
 	ety, _ := convert.UnifyUnsafe(etys)
 	if ety == cty.NilType {
@@ -135,11 +140,18 @@ var funcConcat = function.New(&function.Spec{
 		if ety == cty.DynamicPseudoType {
 			return cty.DynamicPseudoType, nil
 		}
+		if ety == cty.NilType {
+			// no element type information at all: the empty tuple converts to every sequence type
+			return cty.EmptyTuple, nil
+		}
 		return cty.List(ety), nil
 	},
 	Impl: func(args []cty.Value, retType cty.Type) (cty.Value, error) {
 		if retType == cty.DynamicPseudoType {
 			return cty.DynamicVal, nil
+		}
+		if retType.Equals(cty.EmptyTuple) {
+			return cty.EmptyTupleVal, nil
 		}
 		var out []cty.Value
 		for _, a := range args {
@@ -236,11 +248,17 @@ var funcToList = function.New(&function.Spec{
 		if ety == cty.DynamicPseudoType {
 			return cty.DynamicPseudoType, nil
 		}
+		if ety == cty.NilType {
+			return cty.EmptyTuple, nil
+		}
 		return cty.List(ety), nil
 	},
 	Impl: func(args []cty.Value, retType cty.Type) (cty.Value, error) {
 		if retType == cty.DynamicPseudoType {
 			return cty.DynamicVal, nil
+		}
+		if retType.Equals(cty.EmptyTuple) {
+			return cty.EmptyTupleVal, nil
 		}
 		cv, err := convert.Convert(args[0], retType)
 		if err != nil {
@@ -260,11 +278,17 @@ var funcToSet = function.New(&function.Spec{
 		if ety == cty.DynamicPseudoType {
 			return cty.DynamicPseudoType, nil
 		}
+		if ety == cty.NilType {
+			return cty.EmptyTuple, nil
+		}
 		return cty.Set(ety), nil
 	},
 	Impl: func(args []cty.Value, retType cty.Type) (cty.Value, error) {
 		if retType == cty.DynamicPseudoType {
 			return cty.DynamicVal, nil
+		}
+		if retType.Equals(cty.EmptyTuple) {
+			return cty.EmptyTupleVal, nil
 		}
 		cv, err := convert.Convert(args[0], retType)
 		if err != nil {
